@@ -218,7 +218,7 @@ class Validator:
         if not path:
             # error applies to the root type
             d = rootdict
-            key = d["__type__"]
+            key = d.get("__type__", "map")
         elif isinstance(path[-1], int) and not isinstance(error.instance, dict):
             # the error is on an item of a list-valued keyword e.g. SIZE 10.5 20
             while isinstance(path[-1], int):
@@ -229,7 +229,7 @@ class Validator:
         elif isinstance(path[-1], int):
             # the error is on an object in a list
             d = dictutils.findkey(rootdict, *path)
-            key = d["__type__"]
+            key = d.get("__type__", str(path[-2]))
         else:
             key = path[-1]
             d = dictutils.findkey(rootdict, *path[:-1])
